@@ -193,6 +193,24 @@ def handle (p : Nat) (r : Req) : Option (R String) :=
     let ros ← asFes (← need r "ros")
     let rs ← asFes (← need r "rs")
     pure <| exceptReply (checkCombinations vk lcs comms qs evals πs ξs ros rs) fun b => [("b", vBool b)]
+  | "ipa.lc_commitments" =>
+    -- the combined commitments as `open_combinations` (p…) and `check_combinations` (v…) build them
+    let lcs ← getLCs (p := p) r
+    let polys ← getPolys (p := p) r
+    let comms ← getComms (p := p) r
+    let rands ← getRands (p := p) r
+    let pc := match combineAllP (polys.zip (rands.zip comms)) lcs with
+      | .error e => Except.error e
+      | .ok as => constructLabeledCommitments (lcInfo as) (lcFlat as)
+    let vc := match combineAllV comms lcs [] with
+      | .error e => Except.error e
+      | .ok (as, _) => constructLabeledCommitments (lcInfoV as) (lcFlatV as)
+    pure <| match pc, vc with
+      | .ok a, .ok b =>
+        okReply [("pcs", vFes (a.map (·.comm.comm))), ("pss", .l (a.map fun c => vOptFe c.comm.shifted)),
+                 ("vcs", vFes (b.map (·.comm.comm))), ("vss", .l (b.map fun c => vOptFe c.comm.shifted))]
+      | .error e, _ => errReply e
+      | _, .error e => errReply e
   | "ipa.lc_kind" =>
     -- the outcome class (incl. the error kind) of the combination phase of both functions
     let lcs ← getLCs (p := p) r
